@@ -73,6 +73,13 @@ def file_tokens(tree):
     return " ".join("%s:%s:%d" % (hx(p.encode()), hx(c), m) for p, (c, m) in sorted(tree.items()))
 
 
+# the two 128-byte messages of the MD5 collision published by Wang et al. (2004): same md5, different sha1; any common suffix keeps both facts.
+# A copy turned into its twin is DAMAGED, and only a comparison of BOTH recorded digests says so.
+MD5_TWINS = (bytes.fromhex("d131dd02c5e6eec4693d9a0698aff95c2fcab58712467eab4004583eb8fb7f8955ad340609f4b30283e488832571415a085125e8f7cdc99fd91dbdf280373c5b"
+                           "d8823e3156348f5bae6dacd436c919c6dd53e2b487da03fd02396306d248cda0e99f33420f577ee8ce54b67080a80d1ec69821bcb6a8839396f9652b6ff72a70"),
+             bytes.fromhex("d131dd02c5e6eec4693d9a0698aff95c2fcab50712467eab4004583eb8fb7f8955ad340609f4b30283e4888325f1415a085125e8f7cdc99fd91dbd7280373c5b"
+                           "d8823e3156348f5bae6dacd436c919c6dd53e23487da03fd02396306d248cda0e99f33420f577ee8ce54b67080280d1ec69821bcb6a8839396f965ab6ff72a70"))
+
 NAME_POOL = ["a.txt", "b", "pipe|name.bin", 'quo"te.txt', "it's", " lead", "trail ", "数据.dat", "é.x", "a,b", "semi;colon", "x.tar.gz",
              ".hidden", "UP.TXT", "back\\slash", "q\"\"q", "|", "#hash", "name with  spaces.md",
              # names that are NOT in Unicode normal form C (decomposed accents, compatibility characters): a byte-exact file system
@@ -80,7 +87,7 @@ NAME_POOL = ["a.txt", "b", "pipe|name.bin", 'quo"te.txt', "it's", " lead", "trai
              "cafe\u0301.txt", "A\u030angstro\u0308m", "\u212b.dat", "o\u0302\u0323.bin",
              # control characters (legal in POSIX names; not "printable", but C16/C17/C18 quantify over all trees): the csv reader takes a
              # bare carriage return for an end of row
-             "cr\rname.txt", "nl\nname", "tab\tname", "crlf\r\nx", "\r", "end\r"]
+             "path", "md5", "ext", "cr\rname.txt", "nl\nname", "tab\tname", "crlf\r\nx", "\r", "end\r"]
 
 
 def gen_tree(rng, nfiles=None, depth=2):
